@@ -27,33 +27,43 @@ ASSUMPTIONS = [
 ]
 
 
-def tree(text):
-    return repr(vyxal.parse.parse(vyxal.lexer.tokenise(text)))
+def tree(text, digraphs=False):
+    return repr(vyxal.parse.parse(vyxal.lexer.tokenise(text, digraphs)))
 
 
-def check_text(closed: str, k: int):
+def check_text(closed: str, k: int, vmode: bool = False):
+    """Default lexer mode and, when vmode, also one-letter variable names (the V flag; variables_as_digraphs).
+    vmode is only sound for programs whose variable names have at most one letter: a longer name is a different
+    program under V (`→ak;` is `→a` followed by the constant digraph `k;`)."""
+    return _check_text(closed, k, False) or (_check_text(closed, k, True) if vmode else None)
+
+
+def _check_text(closed: str, k: int, digraphs: bool):
     """all suffixes 1..k of the closer run; -> None or (sig, msg)"""
+    tree_ = (lambda t: tree(t, True)) if digraphs else tree
+    tag = ":V-flag" if digraphs else ""
     try:
-        want = tree(closed)
+        want = tree_(closed)
     except Exception as e:  # noqa: BLE001
-        return (f"C04:closed-raises:{type(e).__name__}", f"fully closed program {closed!r} does not parse: {e!r}")
+        return (f"C04:closed-raises:{type(e).__name__}" + tag, f"fully closed program {closed!r} does not parse: {e!r}")
     for j in range(1, k + 1):
         trunc = closed[:-j]
         dropped = closed[-j:]
         try:
-            got = tree(trunc)
+            got = tree_(trunc)
         except Exception as e:  # noqa: BLE001
-            return (f"C04:truncated-raises:{type(e).__name__}:dropped={''.join(sorted(set(dropped)))}",
+            return (f"C04:truncated-raises:{type(e).__name__}:dropped={''.join(sorted(set(dropped)))}" + tag,
                     f"{closed!r} without its last {j} closer(s) ({trunc!r}) raised {e!r}")
         if got != want:
-            return (f"C04:differs:dropped={''.join(sorted(set(dropped)))}",
-                    f"{closed!r} parses to {want}; without its last {j} closer(s) ({trunc!r}) it parses to {got}")
+            return (f"C04:differs:dropped={''.join(sorted(set(dropped)))}" + tag,
+                    ("[one-letter variable names] " if digraphs else "") + f"{closed!r} parses to {want}; without its last {j} closer(s) ({trunc!r}) it parses to {got}")
     return None
 
 
 def check_ast(ast):
     text, k = progs.render_seq(ast)
-    return check_text(text, k), text, k
+    vmode = all(len(n[1]) <= 1 for n, _ in progs.walk(ast) if n[0] in ("get", "set"))
+    return check_text(text, k, vmode), text, k
 
 
 def _do(rec, ast, cls):
